@@ -78,6 +78,8 @@ def strip_msg(m):
 
 def inputs(c):
     t = c["t"]
+    if t == "bigdump":
+        return {"t": t, "cap": c["cap"], "n": c["n"], "tie": c["tie"]}
     if t == "cache":
         return {"t": t, "cap": c["cap"], "msgs": [strip_msg(m) for m in c["msgs"] if not m.get("sentinel")]}
     if t == "sqlite":
@@ -205,6 +207,12 @@ class C16(Prop):
             return "(CDump %s %s %s %s %s %s)" % (
                 cZ(c["cap"]), ievents(I, c["hist"]), ievents(I, c.get("listing")), ievents(I, c.get("dumped")),
                 ievents(I, c.get("restored")), qs)
+        if t == "bigdump":
+            strs = lambda l: clist(l or [], I.s, "str")
+            return "(CBigDump %s %s %s)" % (
+                strs(c.get("listing")), strs(c.get("restored")),
+                clist(c.get("qs") or [], lambda q: cpair(strs(q.get("out1")), strs(q.get("out2"))),
+                      "(list str * list str)%type"))
         if t == "sqlite":
             return "(CSqlite %s %s %s)" % (
                 cZ(c["ml"]),
@@ -220,6 +228,8 @@ class C16(Prop):
         if c.get("err"):
             return None
         t = c["t"]
+        if t == "bigdump":
+            return json.dumps(inputs(c), sort_keys=True) if len(c.get("listing") or []) >= 1000 else None
         if t == "cache":
             rejected = any(r["k"] == "ok" and not r["acc"] for r in c["replies"])
             answered = any(r["k"] == "event" for r in c["replies"])
@@ -250,6 +260,9 @@ class C16(Prop):
 
     def summarize(self, c):
         t = c["t"]
+        if t == "bigdump":
+            return {"t": t, "cap": c["cap"], "n": c["n"], "tie": c["tie"], "listed": len(c.get("listing") or []),
+                    "restored": len(c.get("restored") or []), "queries": len(c.get("qs") or []), "err": c.get("err", "")}
         if t == "dump":
             return {"t": t, "cap": c["cap"], "hist": [e["id"] for e in c["hist"]],
                     "listing": [e["id"] for e in c.get("listing") or []],
@@ -297,6 +310,11 @@ class C16(Prop):
             d["by_type"][t] = d["by_type"].get(t, 0) + 1
             if c.get("err"):
                 d["cases_with_err"] += 1
+            if t == "bigdump":
+                d.setdefault("bigdump", {"stores": 0, "events_listed": 0})
+                d["bigdump"]["stores"] += 1
+                d["bigdump"]["events_listed"] += len(c.get("listing") or [])
+                continue
             if t == "dump":
                 dd = d["dump"]
                 dd["hist_events"] += len(c["hist"])
@@ -349,6 +367,10 @@ class C16(Prop):
     # -- shrinking: smaller inputs (the harness recomputes sentinels and observations)
     def shrink(self, c):
         c = inputs(c)
+        if c["t"] == "bigdump":
+            if c["n"] > 1001:
+                yield dict(c, n=1001 + (c["n"] - 1001) // 2, cap=max(c["cap"], c["n"]))
+            return
         if c["t"] == "dump":
             yield from self._shrink_dump(c)
         else:
